@@ -1,8 +1,9 @@
 #!/bin/bash
 # usage: tools/seed_reeval.sh <PID> <name under seeded/> "<what was strengthened>"
+# optional 4th argument: the same edit rebased onto the current HEAD (kept as patch_rebased.diff) when a later fix commit made patch.diff inapplicable
 # Re-runs the check against a stored seeded change that was missed at first and records both outcomes in meta.json.
 pid="$1"; name="$2"; note="$3"; dst="/verif/seeded/$name"; tmp="/tmp/se/re-$name"; rm -rf "$tmp"; mkdir -p "$tmp"
-cp "$dst/patch.diff" "$dst/demo.py" "$tmp/"
+cp "$dst/patch.diff" "$dst/demo.py" "$tmp/"; if [ -n "$4" ]; then cp "$4" "$tmp/patch.diff"; cp "$4" "$dst/patch_rebased.diff"; fi
 /verif/tools/seed_eval.sh "$pid" "$tmp" "" quick > /dev/null 2>&1
 cp "$tmp/eval.txt" "$dst/eval_after_strengthening.txt"
 /venv/bin/python - "$pid" "$name" "$dst" "$note" <<'PY'
